@@ -5,7 +5,7 @@ import warnings
 import numpy as np
 from hypothesis import strategies as st
 
-from vf.harness import Clause, Info, Skip, require
+from vf.harness import Clause, Info, Skip, require, Violation
 from vf import ref_tpt as R
 
 from enspara import tpt
@@ -46,9 +46,20 @@ W = R.within
 
 
 def _quiet(fn, *a, **k):
+    """Every library call of this check goes through here: the arguments (transition matrix container, state sets,
+    populations) are the caller's and must come back unchanged - the same objects are what the next analysis
+    (net fluxes after fluxes, another source/sink pair) is run on."""
+    before = [R.snapshot(x) for x in a] + [R.snapshot(v) for v in k.values()]
     with warnings.catch_warnings():
         warnings.simplefilter("ignore")
-        return fn(*a, **k)
+        try:
+            return fn(*a, **k)
+        finally:
+            after = [R.snapshot(x) for x in a] + [R.snapshot(v) for v in k.values()]
+            if after != before:
+                names = ["tprob", "sources", "sinks"][:len(a)] + list(k)
+                bad = [n_ for n_, x, y in zip(names, before, after) if x != y]
+                raise Violation("%s modified the caller's %s" % (getattr(fn, "__name__", "call"), ", ".join(bad)))
 
 
 @st.composite
@@ -341,6 +352,30 @@ def run_refill(case):
     i = cx2.info(["first=" + case["first"], "second=" + case["second"], "populations_differ=%s" % differ])
     return Info(i.nontrivial and differ, i.classes)
 
+
+# --------------------------------------------------------------------------
+# clause 9: a refused call (populations of the wrong length) leaves the caller's objects usable
+
+def run_refused_then_reuse(case):
+    cx = Ctx(case)
+    a, kw = cx.args()
+    refused = 0
+    for fn, bad in ((tpt.reactive_fluxes, np.full(cx.n + 1, 1.0 / (cx.n + 1))), (tpt.net_fluxes, np.full(max(cx.n - 1, 1), 0.5)),
+                    (tpt.reactive_populations, np.ones((2, cx.n)))):
+        try:
+            _quiet(fn, *a, populations=bad)       # _quiet itself reports arguments changed by the refused call
+        except Violation:
+            raise
+        except Exception:
+            refused += 1
+    F = _mat(_quiet(tpt.reactive_fluxes, *a, **kw), cx.n, "reactive_fluxes")
+    check_flux(cx, F)
+    N = _mat(_quiet(tpt.net_fluxes, *a, **kw), cx.n, "net_fluxes")
+    check_conservation(cx, N)
+    i = cx.info(["refused_calls=%d" % refused])
+    selfloops = bool(np.any(np.diag(cx.T) > 0))
+    return Info(i.nontrivial and refused > 0 and selfloops, i.classes)
+
 # --------------------------------------------------------------------------
 # clause 5: every container, same values
 
@@ -416,8 +451,10 @@ def exhaustive_pairs(tier, shard, nshards):
 @st.composite
 def big_case(draw):
     return {"n": draw(st.integers(150, 400)), "seed": draw(st.integers(0, 2 ** 31 - 1)),
-            "nsrc": draw(st.integers(1, 3)), "nsnk": draw(st.integers(1, 3)),
-            "container": draw(st.sampled_from(["ndarray", "ndarray", "ndarray_F", "csr"])),
+            # also source / sink SETS of dozens of states (a folded / unfolded ensemble), beyond any internal block of
+            # right-hand sides
+            "nsrc": draw(st.sampled_from([1, 2, 3, 3, 40])), "nsnk": draw(st.sampled_from([1, 2, 3, 3, 64, 65, 100])),
+            "container": draw(st.sampled_from(["ndarray", "ndarray", "ndarray_F", "csr", "csc"])),
             "pops": draw(st.sampled_from(["given", "given", "computed"])),
             "density": draw(st.sampled_from([1.0, 0.2]))}
 
@@ -470,7 +507,8 @@ def run_big(case):
     P2 = np.asarray(tpt.reactive_populations(X, src, snk, **kw)).ravel()
     require(np.array_equal(P, P2), "reactive_populations called twice on the same arguments gave different values")
     tiny = int(((Nref > 0) & (Nref < 1e-8)).sum())
-    return Info(tiny > 0, ["big_container=" + case["container"], "big_pops=" + case["pops"],
+    return Info(tiny > 0 or len(snk) > 64, ["big_container=" + case["container"], "big_pops=" + case["pops"],
+                           "big_sinks=%s" % ("<=3" if len(snk) <= 3 else "64" if len(snk) == 64 else ">64"),
                            "edges_below_1e-8=%s" % ("0" if tiny == 0 else "some" if tiny < 100 else "many")])
 
 
@@ -541,6 +579,8 @@ CLAUSES = [
     Clause("second_call_refilled", refill_case(), run_refill, quick=600, thorough=5000,
            doc="analyse, refill the same container object in place with another reversible chain, analyse again "
                "(populations computed by the library both times)"),
+    Clause("refused_call_then_reuse", flux_case(), run_refused_then_reuse, quick=400, thorough=4000,
+           doc="calls refused for a wrong-length populations vector, then the same container analysed normally"),
     Clause("flux_definition_large", flux_case(max_n=25), run_flux, quick=0, thorough=2500),
     Clause("conservation_large", flux_case(max_n=25), run_conservation, quick=0, thorough=2500),
     Clause("reactive_populations_large", flux_case(max_n=25, reactive_only=True), run_pops, quick=0, thorough=1500),
